@@ -847,7 +847,11 @@ func ToEntry(n Node) (e *Entry) {
 					// The submodule is converted anew, so that its own
 					// includes are accounted for in this module.
 					ms.dropEntryCache(a.Module)
-					e.merge(a.Module.Prefix, nil, ToEntry(a.Module))
+					sub := ToEntry(a.Module)
+					e.merge(a.Module.Prefix, nil, sub)
+					// The identities of the submodule are the
+					// module's too.
+					e.Identities = append(e.Identities, sub.Identities...)
 				case ms.ParseOptions.IgnoreSubmoduleCircularDependencies:
 					continue
 				default:
@@ -913,7 +917,9 @@ func ToEntry(n Node) (e *Entry) {
 			}
 		case "identity":
 			if i := fv.Interface().([]*Identity); i != nil {
-				e.Identities = i
+				// Those of the included submodules (added where
+				// the submodule is merged) follow the module's own.
+				e.Identities = append(append([]*Identity(nil), i...), e.Identities...)
 			}
 		case "uses":
 			for _, a := range fv.Interface().([]*Uses) {
